@@ -9,16 +9,16 @@ V = os.path.dirname(os.path.dirname(os.path.abspath(__file__)))
 
 
 def per_property():
-    rows = ["| id | harness files | harness instances | paths (non-trivial) | obligations | exhaustive | canaries | quick wall (s) |",
+    rows = ["| id | harness files | harness instances | paths (non-trivial) | obligations | exhaustive | canaries | tier of the committed evidence, wall (s) |",
             "|---|---|---|---|---|---|---|---|"]
     for f in sorted(glob.glob(os.path.join(V, "evidence", "C*.json"))):
         e = json.load(open(f))
         c = e["coverage"]
         pid = e["property_id"]
         files = ", ".join(sorted(os.path.basename(x) for x in glob.glob(os.path.join(V, "harness", pid + "_*.py"))))
-        rows.append("| %s | %s | %d | %d (%d) | %d | %s | %d/%d | %.0f |" % (
+        rows.append("| %s | %s | %d | %d (%d) | %d | %s | %d/%d | %s, %.0f |" % (
             pid, files, len(c["harnesses"]), c["evaluations"], c["distinct_nontrivial"], c["obligations"],
-            "yes" if c["exhaustive"] else "no", c["canaries_caught"], c["canaries"], e["wall_s"]))
+            "yes" if c["exhaustive"] else "no", c["canaries_caught"], c["canaries"], e.get("tier", "?"), e["wall_s"]))
     return "\n".join(rows)
 
 
